@@ -371,6 +371,38 @@ pub extern "sysv64" fn memory_read_word(areas: *mut MemoryAreas, addr: u16) -> u
   (high << 8) | low
 }
 
+// Entry points for translated code. The emitter fills the argument registers
+// with 8- and 16-bit moves, so the upper bits of esi and edx are whatever they
+// held before (at block entry rsi is the host address of the block). A function
+// that takes a u16 or u8 argument may assume those bits are zero, and optimised
+// builds do: a release build read 0x0000-0x3FFF from the switchable bank. These
+// take the whole registers and truncate them themselves.
+
+#[inline(never)]
+pub extern "sysv64" fn jit_read_byte(areas: *const MemoryAreas, addr: u64) -> u8 {
+  memory_read_byte(areas, addr as u16)
+}
+
+#[inline(never)]
+pub extern "sysv64" fn jit_write_byte(areas: *mut MemoryAreas, addr: u64, value: u64) {
+  memory_write_byte(areas, addr as u16, value as u8)
+}
+
+#[inline(never)]
+pub extern "sysv64" fn jit_write_word(areas: *mut MemoryAreas, addr: u64, value: u64) {
+  memory_write_word(areas, addr as u16, value as u16)
+}
+
+#[inline(never)]
+pub extern "sysv64" fn jit_push_word(areas: *mut MemoryAreas, addr: u64, value: u64) {
+  memory_push_word(areas, addr as u16, value as u16)
+}
+
+#[inline(never)]
+pub extern "sysv64" fn jit_read_word(areas: *mut MemoryAreas, addr: u64) -> u16 {
+  memory_read_word(areas, addr as u16)
+}
+
 pub fn can_dynarec(addr: usize) -> bool {
   addr < 0x8000
 }
